@@ -190,7 +190,7 @@ PROPS.update({
                                  "output of packages other than the wallet is covered by the byte scan only. Trusted: Lean kernel; the "
                                  "harness's classifier."}),
     "C07": {
-        "props": ["MassVerif.Props.C07"], "drivers_mod": ["MassVerif.Driver.Plot"],
+        "props": ["MassVerif.Props.C07", "MassVerif.Props.C07File"], "drivers_mod": ["MassVerif.Driver.Plot"],
         "harnesses": [{"name": "plot", "pkg": "harness/plot", "driver": "MassVerif/Driver/Plot.lean",
                        "quick": {"n": 9, "focus": "C07"}, "thorough": {"n": 60, "focus": "C07"}, "search": {"n": 30, "focus": "C07"}}],
         "level_text": "Unbounded proof (Lean 4) over a model of both plotting passes as write sequences applied window by window: for every list "
@@ -208,7 +208,7 @@ PROPS.update({
                         "x = 0 is the all-zero record (never stored), as in the code"],
     },
     "C10": {
-        "props": ["MassVerif.Props.C10"], "drivers_mod": ["MassVerif.Driver.Plot"],
+        "props": ["MassVerif.Props.C10", "MassVerif.Props.C07File"], "drivers_mod": ["MassVerif.Driver.Plot"],
         "harnesses": [{"name": "plotresume", "pkg": "harness/plot", "driver": "MassVerif/Driver/Plot.lean",
                        "quick": {"n": 3, "focus": "C10"}, "thorough": {"n": 30, "focus": "C10"}, "search": {"n": 8, "focus": "C10"}, "timeout": 3000}],
         "level_text": "Unbounded proof (Lean 4): the resumption invariant (every position below the stored checkpoint holds its final value) "
